@@ -394,6 +394,9 @@ SPECIAL = [
     # more bootstrap iterations than a byte can count
     ([[2], [2, 1]], 4, dict(bootstrap_iteration=300, bootstrap_factor=0.5, flatten=False, drop_level=None)),
     ([[3]], 3, dict(bootstrap_iteration=700, bootstrap_factor=1.0)),
+    # a level dropped AND the rest flattened: the root must still pool every list of the table
+    ([[2], [2, 2], [2, 2, 2, 2]], None, dict(flatten=True, drop_level='L1')),
+    ([[2], [2, 3]], None, dict(flatten=True, drop_level='L0')),
 ]
 
 
